@@ -220,12 +220,14 @@ def h_score_zero():
         S.check('score:minus-infinity-at-probability-0', S.truth(d.score('a') == -math.inf and d.score('zz') == -math.inf))
 
 
-def h_softmax(n):
-    """normalised and invariant under adding a constant; scores enter as LogVal(w) with w>0 arbitrary"""
+def h_softmax(n, masked=()):
+    """normalised and invariant under adding a constant; scores enter as LogVal(w) with w>0 arbitrary; `masked` positions carry the score -inf
+    (a masked, probability-zero event -- wherever it stands in the dictionary order)"""
     if n <= 2:
         ws = [S.real('w_%d' % i, 0, None, lo_strict=True) for i in range(n)]
     else:       # keeps the VC linear: generic positive rationals, the shift stays symbolic
         ws = [S.const(Fraction(x)) for x in (Fraction(3, 7), Fraction(5, 2), Fraction(1, 9), Fraction(11, 4))[:n]]
+    ws = [(0.0 if i in masked else w) for i, w in enumerate(ws)]
     k = S.real('shift', 0, None, lo_strict=True)
     evs = POOL[:n]
     with facades():
@@ -233,8 +235,9 @@ def h_softmax(n):
             sc = {e: S.LogVal(w) for e, w in zip(evs, ws)}
             sc2 = {e: S.LogVal(w) + S.LogVal(k) for e, w in zip(evs, ws)}
         else:
-            sc = {e: math.log(w) for e, w in zip(evs, ws)}
-            sc2 = {e: math.log(w) + math.log(k) for e, w in zip(evs, ws)}
+            lg = lambda x: math.log(x) if x > 0 else -math.inf
+            sc = {e: lg(w) for e, w in zip(evs, ws)}
+            sc2 = {e: lg(w) + math.log(k) for e, w in zip(evs, ws)}
         d, d2 = sm.SoftmaxDistribution(sc), sm.SoftmaxDistribution(sc2)
         tot = S.Sum(ws)
         S.check('softmax:prob-is-exp(score)/sum', S.And([S.eq(d.prob(e) * tot, w) for e, w in zip(evs, ws)]))
@@ -356,6 +359,9 @@ def tasks(tier, seed):
     T.append(Task('score/zero', h_score_zero, (), tier='B'))
     for n in N:
         T.append(Task('softmax/n%d' % n, h_softmax, (n,), tier='B'))
+        if n >= 2:
+            for pos in sorted({0, n // 2, n - 1}):
+                T.append(Task('softmax/n%d/masked-at-%d' % (n, pos), h_softmax, (n, (pos,)), tier='B', note='a -inf score at this position of the dictionary order'))
         T.append(Task('from_pairs/n%d' % n, h_from_pairs, (n,), tier='B'))
     for n in (1, 2):
         T.append(Task('isclose/n%d' % n, h_isclose, (n,), tier='B'))
